@@ -134,6 +134,12 @@ class ObjRunner:
 
     def hook(self, interp, call):
         name = U(call.func)
+        if name in ("map", "filter") and len(call.args) == 2 and name not in interp.env:
+            fn = self._callable(interp, call.args[0])
+            seq = interp.ev(call.args[1])
+            if isinstance(seq, Unknown):
+                raise AnalysisError(f"object model: {name} over an undetermined sequence")
+            return [fn(x) for x in list(seq)] if name == "map" else [x for x in list(seq) if fn(x)]
         if name == "isinstance" and len(call.args) == 2:
             args = [interp.ev(call.args[0])]
         else:
@@ -197,6 +203,32 @@ class ObjRunner:
             if key in self.prog.funcs:
                 return self.run_function(self.prog.funcs[key], None, args, kw, plain=True)
         raise AnalysisError(f"object model: unsupported call {U(call)[:80]!r}")
+
+    def _callable(self, interp, node):
+        """A function value handed to map/filter: bound regex method, lambda, repository function or None (identity test)."""
+        if isinstance(node, ast.Constant) and node.value is None:
+            return bool
+        if isinstance(node, ast.Attribute):
+            recv = interp.ev(node.value)
+            if isinstance(recv, dict) and recv.get("__class__") == "re.Pattern" and node.attr in ("match", "fullmatch", "search"):
+                return lambda x, k=node.attr, p=recv["pattern"]: self._match(k, p, x)
+            if isinstance(recv, dict) and "__class__" in recv and self.find(recv["__class__"], node.attr) is not None:
+                f = self.find(recv["__class__"], node.attr)
+                return lambda x: self.run_function(f, recv, (x,), {})
+        if isinstance(node, ast.Lambda) and len(node.args.args) == 1:
+            pname = node.args.args[0].arg
+
+            def call_lambda(x):
+                sub = Interp(dict(interp.env), call_hook=self.hook, loop_hook=self.loop)
+                sub.env[pname] = x
+                return sub.ev(node.body)
+            return call_lambda
+        if isinstance(node, ast.Name) and f"{self.rel}::{node.id}" in self.prog.funcs:
+            f = self.prog.funcs[f"{self.rel}::{node.id}"]
+            return lambda x: self.run_function(f, None, (x,), {}, plain=True)
+        if isinstance(node, ast.Name) and node.id in ("str", "int", "float", "bool", "len"):
+            return {"str": str, "int": int, "float": float, "bool": bool, "len": len}[node.id]
+        raise AnalysisError(f"object model: unsupported function value {U(node)[:60]!r}")
 
     @staticmethod
     def _match(kind, pattern, string):
